@@ -44,29 +44,46 @@ and answers after reopen = answers before.
 
 Findings on the unchanged tree (families computed from the update sequence and
 the query):
-  sqlite-sha1s-bytes-encode   SqliteGitShaMap.sha1s() raises AttributeError on a
-                              non-empty map (`bytes.encode`);
-  index-one-entry-per-sha     lookup_git_sha on the index backend returns only
-                              the first entry ever recorded for a sha (same text
-                              under two file ids / in two revisions, unchanged
-                              root tree in two revisions);
-  sqlite-tree-sha-unique      the sqlite `trees` table has a unique index on
-                              sha1: recording a tree id for a second
-                              (fileid, revid) deletes the first row
-                              (lookup_tree_id -> KeyError, lookup_git_sha shows
-                              only the newest key).
+  sqlite-sha1s-bytes-encode     SqliteGitShaMap.sha1s() raises AttributeError on a
+                                non-empty map (`bytes.encode`);
+  index-write-group-name-clash  IndexGitShaMap names the index file of a write
+                                group after the shas fed to _add_git_sha, present
+                                or not: converting the same revision again in a
+                                later write group writes an empty index over the
+                                earlier file (answers lost after reopen);
+  index-one-entry-per-sha       lookup_git_sha on the index backend returns only
+                                the first entry ever recorded for a sha (same text
+                                under two file ids / in two revisions, unchanged
+                                root tree in two revisions);
+  sqlite-tree-sha-unique        the sqlite `trees` table has a unique index on
+                                sha1: recording a tree id for a second
+                                (fileid, revid) deletes the first row
+                                (lookup_tree_id -> KeyError, lookup_git_sha shows
+                                only the newest key).
+The first two have a small patch (final report); with it a probe at the start
+of the run (`index_survives_name_clash`) turns the clash sequences into
+ordinary cases for the model.  The last two are properties of the on-disk
+formats.
 
-Mutants this was built against (scratch worktree; all caught, see the final
-report): M1 Sqlite lookup_blob_id with fileid/revid swapped in the query; M2
-IndexGitShaMap._add_node overriding an existing node (add to the builder even
-when present); M3 GitShaMap.missing_revisions returning present & revids; M4
-IndexGitShaMap.lookup_commit `[:40]` -> `[:39]`; M5 SqliteCacheUpdater.finish
-`replace into blobs` -> `insert or ignore into blobs`; M6 DictGitShaMap.revids
-yielding for every entry type; M7 IndexGitShaMap.missing_revisions consulting
-only the newest index file; M8 IndexCacheUpdater not recording the testament;
-harmless: DictCacheUpdater using dict.setdefault + assignment split into two
-statements, Sqlite lookups with named columns — stay clean (relative to the
-three families above).
+Mutants this was built against (scratch worktree = /repo HEAD + that patch; a
+mutant counts as caught when it produces violations outside the two remaining
+families or model mismatches; all caught on seeds 0 and 1 by the oracle with a
+concrete sequence + query, and by T2):
+  M1 SqliteGitShaMap.lookup_blob_id binds (revision, fileid) to (fileid, revid);
+  M2 IndexGitShaMap._add_node adds to the builder although the key exists in a
+     committed file (needs two write groups);
+  M3 GitShaMap.missing_revisions returns revids & present;
+  M4 IndexGitShaMap.lookup_commit `[:40]` -> `[:39]`;
+  M5 SqliteCacheUpdater.finish `replace into blobs` -> `insert or ignore`
+     (needs a re-bound key: non-functional stream, override law on dict/sqlite);
+  M6 DictGitShaMap.revids yields for every entry type;
+  M7 IndexGitShaMap.missing_revisions consults only the newest index file
+     (needs two write groups);
+  M8 IndexGitShaMap._add_git_sha drops the testament;
+  M9 SqliteGitShaMap.commit_write_group does not commit (reopen);
+  M10 IndexGitShaMap.__init__ skips some .rix files (reopen);
+  harmless: DictCacheUpdater's setdefault + assignment split in two statements;
+  Sqlite lookup_blob_id with the WHERE conjuncts (and bindings) swapped — clean.
 """
 import hashlib
 import os
